@@ -109,6 +109,13 @@ def transaction_region(ctx):
                         return None
                     if isinstance(a, ast.Name) and d.get('z_' + a.id) == 'pos' and not tv:
                         return None
+                    # `if number == 0:` / `if number > 0:` on the counter
+                    if isinstance(a, ast.Compare) and len(a.ops) == 1 and isinstance(a.left, ast.Name) and d.get('z_' + a.left.id) in ('zero', 'pos') \
+                            and isinstance(a.comparators[0], ast.Constant) and a.comparators[0].value == 0:
+                        zero = d['z_' + a.left.id] == 'zero'
+                        holds = {ast.Eq: zero, ast.NotEq: not zero, ast.Gt: not zero, ast.LtE: zero, ast.GtE: True, ast.Lt: False}.get(type(a.ops[0]))
+                        if holds is not None and holds != tv:
+                            return None
             if node.kind == 'test':
                 for l, op, r in compare_ops(node.ast):
                     if r == 'None' and l in none_vars and op in ('is', 'isnot'):
@@ -463,10 +470,30 @@ def deadline_checked_every_cycle(ctx):
             head = cfg.ids(l.test)
             cmp_nodes = {n.id for n in cfg.nodes if n.ast is not None and n.kind in ('test', 'stmt') and
                          any(isinstance(x, ast.Compare) and names_in(x) & ends for x in walk_local(n.ast))}
+            # the comparison may be wrapped in a local closure: `expired = lambda: time.time() >= end` ... `expired()`
+            checkers = set()
+            for x in body_walk(f.node):
+                if isinstance(x, ast.Assign) and len(x.targets) == 1 and isinstance(x.targets[0], ast.Name) and isinstance(x.value, ast.Lambda) and \
+                        any(isinstance(y, ast.Compare) and names_in(y) & ends for y in ast.walk(x.value)):
+                    checkers.add(x.targets[0].id)
+            for lst in f.nested.values():
+                for nf in lst:
+                    if isinstance(nf.node, ast.FunctionDef) and any(isinstance(y, ast.Compare) and names_in(y) & ends for y in ast.walk(nf.node)):
+                        checkers.add(nf.name)
+            cmp_nodes |= {n.id for n in cfg.nodes if n.ast is not None and n.kind in ('test', 'stmt') and
+                          any(isinstance(x, ast.Call) and isinstance(x.func, ast.Name) and x.func.id in checkers for x in walk_local(n.ast))}
             body_first = [b for h in head for b, lab in cfg.succ[h] if lab == 'T']
             # a cycle on which the caller gave no time-out (the flag guarding the deadline assignment tested false) has no deadline
             flags = {x.id for n in body_walk(f.node) if isinstance(n, ast.Assign) and any(isinstance(t, ast.Name) and t.id in ends for t in n.targets)
                      for a in ancestors(n) if isinstance(a, ast.If) for x in ast.walk(a.test) if isinstance(x, ast.Name)}
+
+            # ... and so do names bound beside the deadline that are None when there is none (`expired = None` in the else branch)
+            for n in body_walk(f.node):
+                if isinstance(n, ast.Assign) and any(isinstance(t, ast.Name) and t.id in ends for t in n.targets):
+                    for a in ancestors(n):
+                        if isinstance(a, ast.If) and a.orelse:
+                            flags |= {t.id for st in a.orelse if isinstance(st, ast.Assign) and isinstance(st.value, ast.Constant) and st.value.value is None
+                                      for t in st.targets if isinstance(t, ast.Name)}
 
             def no_deadline(a, tv):
                 return not tv and isinstance(a, ast.Name) and a.id in flags
@@ -574,6 +601,8 @@ def calls_fail_or_return_a_reply(ctx):
                         reads = {i for c in calls_in(f.node) if call_attr(c) in ('readline', 'readbytes') for i in cfg.node_of(c)}
                         side = cfg.reach([t.id], labels={'T' if neg else 'F'}, avoid=[t.id])      # reply expected
                         other = cfg.reach([t.id], labels={'F' if neg else 'T'}, avoid=[t.id])
+                        if reads and not (reads & (side | other)):
+                            continue        # a second test of the flag behind the read (decoding / logging of the reply): decides nothing about reading
                         ctx.check(bool(reads) and bool(reads & side) and not (reads & other - side), f'{f.qualname}:reply read iff one is expected', t.ast,
                                   'readline on the side where noreply is false',
                                   f'`{src(t.ast)}`: the reply is read only for commands that have none (time-out) and not for those that have one (the reply stays in '
